@@ -181,6 +181,8 @@ def tt_dimscheck(  # noqa: PLR0912
         raise ValueError(
             "Negative dims aren't allowed in pyttb, see exclude_dims argument instead"
         )
+    if np.any(dim_array >= N):
+        raise ValueError(f"Dims must be smaller than the number of modes ({N})")
 
     # Save dimensions of dims
     P = len(dim_array)
